@@ -186,6 +186,9 @@ func (configgen *ConfigGeneratorImpl) deltaFromServices(key model.ConfigKey, pro
 		// list again. Subset clusters that are not rebuilt (for example because the hostname is now served by a
 		// service for which the subset selects nothing) are really deleted, just as for a full push.
 		deletedClusters = append(deletedClusters, subsetClusters[key.Name].UnsortedList()...)
+		// The same holds for the port clusters: servicePortClusters remembers only one cluster per port, so when a
+		// removed port had both a plain and a subset cluster the loop below finds just one of them.
+		deletedClusters = append(deletedClusters, serviceClusters[key.Name].UnsortedList()...)
 		for port, cluster := range servicePortClusters[service.Hostname.String()] {
 			// if this service port is removed, we can conclude that it is a removed cluster.
 			if _, exists := service.Ports.GetByPort(port); !exists {
